@@ -431,7 +431,7 @@ def _parseNormalTextgrid(data: str) -> Dict:
 
         # "-0" has been reported as a potential start time
         tierStartTimeStr = reSearch(
-            r"xmin ?= ?-?([\d.eE+-]+)\s*$", header, flags=re.MULTILINE
+            r"xmin ?= ?([\d.eE+-]+)\s*$", header, flags=re.MULTILINE
         ).groups()[0]
         tierStartTime = utils.strToIntOrFloat(tierStartTimeStr)
 
@@ -445,7 +445,7 @@ def _parseNormalTextgrid(data: str) -> Dict:
         if tierType == INTERVAL_TIER:
             for element in tierData:
                 timeStart = reSearch(
-                    r"xmin ?= ?-?([\d.eE+-]+)\s*$", element, flags=re.MULTILINE
+                    r"xmin ?= ?([\d.eE+-]+)\s*$", element, flags=re.MULTILINE
                 ).groups()[0]
                 timeEnd = reSearch(
                     r"xmax ?= ?([\d.eE+-]+)\s*$", element, flags=re.MULTILINE
@@ -462,7 +462,7 @@ def _parseNormalTextgrid(data: str) -> Dict:
         else:
             for element in tierData:
                 time = reSearch(
-                    r"number ?= ?-?([\d.eE+-]+)\s*$", element, flags=re.MULTILINE
+                    r"number ?= ?([\d.eE+-]+)\s*$", element, flags=re.MULTILINE
                 ).groups()[0]
                 label = reSearch(
                     r"mark ?= ?\"(.*)\"\s*$",
